@@ -119,6 +119,7 @@ type FnExec struct {
 	onEntry  func(fx *FnExec)
 	ghostTouch func(call ssa.CallInstruction) bool // does this call update a ghost? (nil = every call may)
 	rely       map[string]func(before, after string) string
+	hookGhost  string // name of the ghost updated by the family's onCall hook
 	private    []privateObj // fresh objects that never escape: unchanged by any call
 }
 
@@ -446,6 +447,12 @@ func (fx *FnExec) havocHeap(name string) {
 	// guarantee is itself an obligation of the family that installs it)
 	if r, ok := fx.rely[name]; ok {
 		fx.assumeGlobal(r(before, n))
+	}
+	// rely_tree: nodes, templates and []Node elements that existed when this function was entered
+	// are not written by anything it calls (every function on the render path guarantees it: the
+	// `tree` obligations of C01)
+	if fx.C != nil && fx.C.Flags["rely_tree"] != "" && treeHeap(name) {
+		fx.assumeGlobal("(forall ((qr Int)) (! (=> (< qr " + fx.allocBase() + ") (= (select " + n + " qr) (select " + before + " qr))) :pattern ((select " + n + " qr))))")
 	}
 }
 
@@ -783,6 +790,15 @@ func (fx *FnExec) loaded(t types.Type, term string) string {
 	if inv := fx.typeInvariant(t, n); inv != "true" {
 		fx.assume(inv)
 	}
+	// an object whose reference never left this activation cannot be found in memory
+	if len(fx.private) > 0 {
+		switch t.Underlying().(type) {
+		case *types.Pointer, *types.Map:
+			for _, po := range fx.private {
+				fx.assume("(distinct " + n + " " + po.ref + ")")
+			}
+		}
+	}
 	// a value read from an untouched initial heap array existed before this activation
 	if initialHeapTerm(term) {
 		if inv := fx.refInv(t, n); inv != "true" {
@@ -1015,6 +1031,20 @@ func (fx *FnExec) writeIsIterFresh(in ssa.Instruction, li *loopInfo) bool {
 			return li.body[r.Block().Index]
 		}
 		return false
+	}
+	return false
+}
+
+// treeHeap: heaps that hold the parsed template tree.
+func treeHeap(name string) bool {
+	if name == "E_Node" || name == "E___Node" || strings.HasPrefix(name, "H_Template_") {
+		return true
+	}
+	if strings.HasPrefix(name, "H_") {
+		rest := name[2:]
+		if i := strings.Index(rest, "_"); i > 0 && strings.HasSuffix(rest[:i], "Node") {
+			return true
+		}
 	}
 	return false
 }
